@@ -1,6 +1,6 @@
 (* C02 - Line time accounting is exact, inclusive of callees, and conserved.  Statements only. *)
 From Coq Require Import List ZArith QArith Bool.
-From LP Require Import Trace.ZMap Trace.Concrete Trace.ConcreteFacts Trace.Abstract Trace.Main Trace.Spec
+From LP Require Import Trace.GenRun Trace.ZMap Trace.Concrete Trace.ConcreteFacts Trace.Abstract Trace.Main Trace.Spec
      Trace.Witness Trace.TimeFacts Trace.TimeExact Trace.TimeMain.
 Import ListNotations.
 Open Scope Z_scope.
@@ -64,3 +64,10 @@ Theorem C02_recursion_refuted :
   rev (s_snaps (s_run rec_codes 0 0 rec_ops)) = [[(0, [(2, 2, 100); (3, 1, 100); (4, 2, 0)])]]
   /\ rev (snaps (run rec_codes 0 0 rec_ops)) = [[(0, [(2, 2, 100); (3, 1, 0); (4, 2, 0)])]].
 Proof. exact rec_time. Qed.
+
+(* The tie to the source: the machine regenerated from line_profiler/_line_profiler.pyx on this run (Gen/TraceCore.v:
+   the trace callback translated statement by statement, compute_line_hash, enable/disable, the registration loop and
+   get_stats read off the source) computes exactly `run`, the model the theorems above are about. *)
+Theorem C02_model_is_generated_core :
+  forall codes tick start ops, gen_run codes tick start ops = run codes tick start ops.
+Proof. exact gen_run_eq. Qed.
